@@ -172,4 +172,60 @@ def specEval {N : Type} (nm : Num N) (d : Doc) (steps : List (SStep N)) (start :
 def flattenSteps {N : Type} (steps : List (SStep N)) : List (Step N) :=
   steps.map (fun s => { dbl := s.dbl, axis := s.axis, name := s.name, preds := s.preds.map flatten })
 
+/-! ### The value-level clauses of the property, written from its text
+
+  `evalP`, `specKeep` and `specAxis` above share their leaf functions (`applyOp`, `keepTag`, `Doc.ctx`, `nameOk`) with the
+  model.  The definitions below do not: each is a direct reading of one clause of the property, in terms of the
+  document table and the natural numbers only.  Lemmas/XPathValues.lean relates them to the model's functions. -/
+
+/-- "an absent attribute": the element carries no attribute of that name (names are case-insensitive and kept
+    in lower case) -/
+def Ctx.lacks (c : Ctx) (name : Str) : Prop := ∀ v, (lower name, v) ∉ c.attrs
+
+def Doc.lacksAttr (d : Doc) (i : Nat) (name : Str) : Prop := ∀ v, (lower name, v) ∉ (d.getD i default).attrs
+
+/-- "both sides are numeric": the value is a number, or a string that reads as one (`float(s)` succeeds — an
+    attribute value such as `"10"`), or a truth value (`float(True) == 1.0`); with the number it stands for -/
+inductive IsNumeric {N : Type} (nm : Num N) : Val N → N → Prop
+  | num (x : N) : IsNumeric nm (.num x) x
+  | str (s : Str) (x : N) : nm.parse s = some x → IsNumeric nm (.str s) x
+  | bool (b : Bool) : IsNumeric nm (.bool b) (nm.ofNat (if b then 1 else 0))
+
+/-- the relation a comparison operator stands for, on numbers -/
+def numRel {N : Type} (nm : Num N) : CmpOp → N → N → Bool
+  | .eq, x, y => nm.eq x y
+  | .ne, x, y => !nm.eq x y
+  | .lt, x, y => nm.lt x y
+  | .le, x, y => nm.le x y
+  | .gt, x, y => nm.lt y x
+  | .ge, x, y => nm.le y x
+
+/-- … and on natural numbers, with the order of the natural numbers -/
+def natRel : CmpOp → Nat → Nat → Bool
+  | .eq, a, b => decide (a = b)
+  | .ne, a, b => decide (a ≠ b)
+  | .lt, a, b => decide (a < b)
+  | .le, a, b => decide (a ≤ b)
+  | .gt, a, b => decide (b < a)
+  | .ge, a, b => decide (b ≤ a)
+
+/-- "the n-th among their same-named siblings": the position of element `i`, counted from 1, among the children
+    of its parent that carry its tag name — one more than the number of *earlier* rows of the table with the same
+    parent and the same name; an element without parent is the first (and only) one. -/
+def specPos (d : Doc) (i : Nat) : Nat :=
+  match d.parent i with
+  | none => 1
+  | some p => ((List.range i).filter (fun j => decide (d.parent j = some p) && decide (d.name j = d.name i))).length + 1
+
+/-- the number of children of the parent of `i` with its tag name (`last()`) -/
+def specLast (d : Doc) (i : Nat) : Nat :=
+  match d.parent i with
+  | none => 1
+  | some p => ((List.range d.length).filter (fun j => decide (d.parent j = some p) && decide (d.name j = d.name i))).length
+
+/-- element `i` is the `n`-th among its same-named siblings -/
+def specNth (d : Doc) (i n : Nat) : Prop := specPos d i = n
+
+instance (d : Doc) (i n : Nat) : Decidable (specNth d i n) := inferInstanceAs (Decidable (specPos d i = n))
+
 end AHP.XPath
